@@ -43,6 +43,7 @@ CHECKS = {
     text='Theorems (Coq): ~s / #s / alias / scoped and grouped references denote the concatenated full name; a missing signal raises; in-scope, in-group, in-scopes, all-scopes '
          'run the body with scope/group set and restore both on completion (also through the balanced-context theorem for the whole evaluator). '
          '(groups s0 s1 ..) returns, ascending and without duplicates, exactly the admissible prefixes p (no line break when no scope is captured; S. plus text without dot or backslash otherwise) such that p+s0 is a signal and every p+si exists, suffixes as literal text (GroupsProofs.v). '
+         'Inside (in-group g body) the captured scope is the part of g up to its last dot, the scope captured before when g has none (GroupScope.v). '
          'PARTIAL: that the regular expression in `groups` computes this prefix/suffix relation is decided by the differential check against a brute-force oracle.' + DIFF,
     technique='Coq proof (name denotation lemmas, restore lemmas) + differential correspondence + brute-force group oracle'),
  'C06': dict(
@@ -64,7 +65,7 @@ CHECKS = {
          'same value, same type, same state; folded operands are literals only; T-opt for a fragment, congruence included (OptRo.v): for every expression built from '
          'integer/boolean/string literals, names, + - * ** mod, comparison, logic, bitwise operators, slice, if and do, nested arbitrarily, a completed evaluation of the '
          'unoptimised expression is reproduced (value and state) by the optimised one; extended (OptLet.v) to programs with while, print, set and let nested arbitrarily (same value, output, assignments and frames). PARTIAL: expressions outside that fragment (functions, quoted data, scans) and float products are decided by the '
-         'differential check (with vs without the pass, exhaustive small trees).' + DIFF,
+         'differential check (with vs without the pass, exhaustive small trees). Quoted data is left alone and nothing but the listed shapes is rewritten (QuoteProofs.v, OptOnly.v).' + DIFF,
     technique='Coq proof (each optimizer rule is an evaluator equation) + differential correspondence'),
  'C09': dict(
     text='Theorems (Coq, all widths/arity, no bound): bit/slice = floor(x/2^l) mod 2^(h-l+1), adjacent slices reassemble, '
@@ -78,7 +79,7 @@ CHECKS = {
          'slice bounds); string literals with every escape read as the intended text; the reader model is a total function; layout invariance (LayoutProofs.v): any gap '
          '(white space and ;-comments running to a line break) after an opening bracket, between elements, before a closing bracket and around the text does not change what is read, for every expression built from '
          'integers, strings, symbols, booleans, operators and nested lists. PARTIAL: totality of the Lark-based implementation and layout of the remaining forms are '
-         'decided by the differential check on random, mutated and re-laid-out texts.' + DIFF,
+         'decided by the differential check on random, mutated and re-laid-out texts. A single-expression read consumes the entire input (ReadWhole.v).' + DIFF,
     technique='Coq proof (scannerless reader model, literal lemmas, layout/comment invariance by mutual induction) + differential correspondence + Python int/float oracle'),
  'C11': dict(
     text='Theorems (Coq): printed integers of any size and sign and printed strings over ASCII (with the escapes wal_str writes) read back as themselves in every position; '
@@ -93,7 +94,7 @@ CHECKS = {
     text='Theorems (Coq): qualified names address exactly one trace; with one trace the qualified and plain name agree; stepping a named trace moves only it; the loaded-trace '
          'count equals the number of traces over every load/unload sequence; a failed load changes nothing; unload removes exactly that trace; and for the WHOLE evaluator '
          '(ContInv.v, induction over every operator): every completed evaluation keeps ids distinct, every trace filed under its own id and the count equal to the number of traces, '
-         'hence in every state reachable from a new interpreter by any sequence of load/step/eval/run.' + DIFF,
+         'hence in every state reachable from a new interpreter by any sequence of load/step/eval/run. A load without an id uses t<number of loaded traces> and fails, changing nothing, when that id is taken (LoadGen.v).' + DIFF,
     technique='Coq proof (container invariants by induction over operations) + differential correspondence'),
  'C13': dict(
     text='Theorems (Coq, any body, any history of reads): a cache hit returns the value stored under the current timestamp; a miss evaluates the body at the current index and '
